@@ -9,7 +9,8 @@
 
    The decoder walks the buffer with an index s exactly as decodePacket does; it is written over
    the suffix rem = b[s:] together with s and len(b), so that b[s] is the head of rem (Panic when
-   s = len(b), as in Go) and every comparison of s with len(b) is the one in the source.
+   s = len(b), as in Go; unreachable since the length checks of commit d9f26ba) and every
+   comparison of s with len(b) is the one in the source.
 
    Not modelled: the 4096-byte staging buffer of dnsPacket (a profile carries domains of at most
    255 bytes, so a packet is at most 12+256+5+16+8*(12+256) = 2433 bytes). *)
@@ -83,18 +84,18 @@ Definition dns_encode_with (server : bool) (labels : list Z) (rnd : Z -> Z -> Z)
 Definition dns_encode (server : bool) (domain : list Z) (rnd : Z -> Z -> Z) (b : list Z) : list Z :=
   dns_encode_with server (dns_labels domain) rnd b.
 
-(* ---- decodePacket ----------------------------------------------------------------------- *)
+(* ---- decodePacket (with the length checks of commit d9f26ba) -------------------------------- *)
 Definition rd (rem : list Z) : res Z := match rem with x :: _ => Ok x | [] => Panic end.
 Definition rd16 (rem : list Z) : res Z :=                      (* int(b[s])<<8 | int(b[s+1]) *)
   do a <- rd rem; do b <- rd (drop 1 rem); Ok (a * 256 + b).
 
-(* for i := 0; i < 64; { if i >= len(b) || s > len(b) {EOF}; if i = int(b[s]); i == 0 { s++; break }; s += i + 1 } *)
+(* for i := 0; i < 64; { if i >= len(b) || s >= len(b) {EOF}; if i = int(b[s]); i == 0 { s++; break }; s += i + 1 } *)
 Fixpoint dns_walk (fuel : nat) (lenb : Z) (i s : Z) (rem : list Z) : res (Z * list Z) :=
   match fuel with
   | O => Err EFuel
   | S f =>
     if negb (i <? 64) then Ok (s, rem)
-    else if (lenb <=? i) || (lenb <? s) then Err EOF_
+    else if (lenb <=? i) || (lenb <=? s) then Err EOF_
     else do i' <- rd rem;
          if i' =? 0 then Ok (s + 1, drop 1 rem)
          else dns_walk f lenb i' (s + i' + 1) (drop (i' + 1) rem)
@@ -110,13 +111,13 @@ Fixpoint dns_questions (q : nat) (lenb : Z) (s : Z) (rem : list Z) : res (Z * li
     else dns_questions q' lenb s2 (drop 4 rem1)
   end.
 
-(* for ; c > 0; c-- { if s += 10; s > len(b) {EOF}; s += int(b[s])<<8 | int(b[s+1]) + 2 } *)
+(* for ; c > 0; c-- { if s += 10; s+1 >= len(b) {EOF}; s += int(b[s])<<8 | int(b[s+1]) + 2 } *)
 Fixpoint dns_answers (c : nat) (lenb : Z) (s : Z) (rem : list Z) : res (Z * list Z) :=
   match c with
   | O => Ok (s, rem)
   | S c' =>
     let s1 := s + 10 in let rem1 := drop 10 rem in
-    if lenb <? s1 then Err EOF_
+    if lenb <=? s1 + 1 then Err EOF_
     else do n <- rd16 rem1;
          dns_answers c' lenb (s1 + n + 2) (drop (n + 2) rem1)
   end.
@@ -130,16 +131,18 @@ Fixpoint dns_additional (t : nat) (lenb : Z) (s : Z) (rem : list Z) (acc : list 
     if lenb <=? s + 6 then Err EOF_
     else if negb (list_eqb Z.eqb (take 6 rem) seg_magic) then Err ENoProgress
     else let rem1 := drop 10 rem in
+         if lenb <=? s + 10 + 1 then Err EOF_
+         else
          do i <- rd16 rem1;
          let rem2 := drop 2 rem1 in
-         if len rem2 <? i then Panic                         (* b[s : s+i] *)
+         if lenb <? s + 12 + i then Err EOF_                 (* s+i > len(b) before b[s : s+i] *)
          else dns_additional t' lenb (s + 12 + i) (drop i rem2) (acc ++ take i rem2)
   end.
 
 (* returns the data written and the number of bytes consumed *)
 Definition dns_decode_packet (b : list Z) : res (list Z * Z) :=
   let lenb := len b in
-  if lenb <? 13 then Panic                                   (* _ = b[12] *)
+  if lenb <? 12 then Err EOF_
   else
     do q <- rd16 (drop 4 b); do c <- rd16 (drop 6 b); do t <- rd16 (drop 10 b);
     do '(s1, rem1) <- dns_questions (Z.to_nat q) lenb 12 (drop 12 b);
